@@ -10,8 +10,8 @@ sees every emission, in attachment order).
 from .. import graphcheck
 
 ASPECTS = ("flow", "err", "starts")
-CHECKS = ("sem", "edges")
-SIGS = ("semantics", "edge-delivery", "edge-altered")
+CHECKS = ("sem", "edges", "nodup")
+SIGS = ("semantics", "edge-delivery", "edge-altered", "duplicated")
 
 CORPUS = [
     # slice with start % step != 0 (repaired defect ee71f4f)
